@@ -108,7 +108,11 @@ func TestVerifC14RealCaps(t *testing.T) {
 			p.Class("realcaps", clause == "")
 			p.Sample(map[string]any{"steps": steps})
 			if clause != "" {
-				sh.Violate(p.Name, "realcaps/"+c14ClauseHead(clause[max(0, c14IndexAfter(clause, "): ")):]), clause, map[string]any{"directed": true})
+				sig := clause[max(0, c14IndexAfter(clause, "): ")):] // the run is one fixed history: the clause itself is stable
+				if len(sig) > 140 {
+					sig = sig[:140]
+				}
+				sh.Violate(p.Name, "realcaps/"+sig, clause, map[string]any{"directed": true})
 			}
 		},
 		Replay: func(part string, raw json.RawMessage) (bool, bool, string) {
